@@ -19,7 +19,7 @@ MANIFEST = dict(
     category='model_checking', design_ref='DESIGN.md §3 C08',
     engine='E1-history',
     technique='exhaustive enumeration of insertion-order histories (<=4 of 6 lexicons, optional remove/re-add) x specifier atoms x ordered atom pairs x lang on the real database vs the documented resolution',
-    text='For every ordered selection of up to 4 of the lexicons a:1, a:1.0, a:2+x (en), ab:1 (cmn-Hans) and b:1, b:2-rc (es; some declaring dependencies that are not installed) - 517 installation histories, each also followed by one remove + re-add so that recency follows the last addition - every specifier atom (*, bare id, id:version, id:*, *:version, star globs, question-mark and bracket globs, unknown id/version), every ordered pair of atoms and every lang value (None, en, es, cmn-Hans, xx) is resolved by Wordnet(...).lexicons(); the result set must equal the documented resolution (bare id = the most recently added lexicon of that id, lists = union), Wordnet must raise wn.Error exactly when nothing at all matches (and wn.lexicons() return []), no unmatched lexicon may ever be selected, lists must not repeat a lexicon, and wn.remove(spec) on a snapshot - for every atom and every list "<atom> <bare id>" - must remove exactly the lexicons resolved before the call.',
+    text='For every ordered selection of up to 4 of the lexicons a:1, a:1.0, a:2+x (en), ab:1 (cmn-Hans) and b:1, b:2-rc (es; some declaring dependencies that are not installed) - 517 installation histories, each also followed by one remove + re-add so that recency follows the last addition - every specifier atom (*, bare id, id:version, id:*, *:version, star globs, question-mark and bracket globs, unknown id/version), every ordered pair of atoms and every lang value (None, en, es, cmn-Hans, xx) is resolved by Wordnet(...).lexicons(); the result set must equal the documented resolution (bare id = the most recently added lexicon of that id, lists = union), Wordnet must raise wn.Error exactly when nothing at all matches (and wn.lexicons() return []), no unmatched lexicon may ever be selected, lists must not repeat a lexicon, after removing the newest lexicon and adding another one in the same process every atom must resolve against the new content, and wn.remove(spec) on a snapshot - for every atom and every list "<atom> <bare id>" - must remove exactly the lexicons resolved before the call.',
     note='Only * wildcards (?, [...] are undocumented); star globs are written with an explicit colon or as an id prefix (where both readings of the documentation agree); all versions of one id share a language so that "most recent" and the lang filter commute.',
 )
 
@@ -177,6 +177,31 @@ def check(case):
             if err != (not exp and sp != '*'):
                 V.append(('remove:error-rule', f'remove({sp!r}) raised={err} with matches {exp}', None,
                           dict(case, atoms=[sp])))
+        # the same process goes on: the newest lexicon is removed and a lexicon that was not installed is added
+        # (it takes over the freed rowid) - every atom resolved before must now resolve against the new content
+        spare = [i for i in range(len(LEXS)) if i not in installed]
+        if installed and spare and case.get('readd') is None:
+            env.restore(snap)
+            for sp in atoms:               # touch every atom first (whatever the library may remember)
+                try:
+                    wn.lexicons(lexicon=sp)
+                except wn.Error:
+                    pass
+            gone, new = installed[-1], spare[0]
+            env.remove(spec(gone))
+            env.add_resource(build(new))
+            inst2 = installed[:-1] + [new]
+            for sp in atoms:
+                n += 1
+                exp = expected(sp, None, inst2)
+                try:
+                    got = {smap[x.specifier()] for x in wn.lexicons(lexicon=sp)}
+                except wn.Error:
+                    got = set()
+                if got != exp:
+                    V.append(('resolve:after-remove-and-add', f'wn.lexicons(lexicon={sp!r}) -> {sorted(spec(i) for i in got)} expected '
+                              f'{sorted(spec(i) for i in exp)} after removing {spec(gone)} and adding {spec(new)} in the same '
+                              f'process; before: {[spec(i) for i in installed]}', None, dict(case, atoms=[sp])))
         # remove('<atom> <bare id>'): the selection is made before anything is deleted
         for a in atoms:
             for b in ('a', 'ab', 'b'):
